@@ -8,5 +8,5 @@ mkdir -p .work evidence replays ocaml/gen ocaml/build
 [ -f tools/gen_tables.py ] && python3 tools/gen_tables.py || true
 ( cd coq && sh mkproject.sh && timeout 3000 make -k -j16 >../.work/setup-coq.log 2>&1 ) || { echo "coq build failed (see .work/setup-coq.log)"; tail -20 .work/setup-coq.log; }
 ( cd ocaml && sh build.sh ) || echo "ocaml driver build failed"
-( cd harness && cp /repo/Cargo.lock Cargo.lock && timeout 3000 cargo build --offline --keep-going --bins --features ls >../.work/setup-cargo.log 2>&1 ) || { echo "harness build failed (see .work/setup-cargo.log)"; tail -20 .work/setup-cargo.log; }
+( cd harness && cp /repo/Cargo.lock Cargo.lock && timeout 3000 cargo build --offline --keep-going --bins --features ls,ts >../.work/setup-cargo.log 2>&1 ) || { echo "harness build failed (see .work/setup-cargo.log)"; tail -20 .work/setup-cargo.log; }
 echo "setup done"
